@@ -50,10 +50,12 @@ template <typename C> static std::string text_of(C const& c)
 }
 
 // integrand shapes
-enum shape { s_ordinary = 0, s_zero, s_const, s_zero_mean, s_nonfinite, s_negative, s_count };
+// s_gap (not part of the shape loops): ordinary, except that the second iteration of the run yields zeros only
+enum shape { s_ordinary = 0, s_zero, s_const, s_zero_mean, s_nonfinite, s_negative, s_count, s_gap = s_count };
+static thread_local int iter_no = 0; // callbacks seen by this rank in the current run
 static char const* shape_name(int s)
 {
-    static char const* n[] = {"ordinary", "zero", "const", "zero_mean", "nonfinite", "negative"};
+    static char const* n[] = {"ordinary", "zero", "const", "zero_mean", "nonfinite", "negative", "gap"};
     return n[s];
 }
 template <typename T> static T shape_value(int s, T x)
@@ -61,6 +63,7 @@ template <typename T> static T shape_value(int s, T x)
     switch (s)
     {
     case s_zero: return T();
+    case s_gap: return iter_no == 1 ? T() : x * x + T(0.1);
     case s_const: return T(2);
     case s_zero_mean: return x < T(0.5) ? T(1) : T(-1);
     case s_nonfinite: return std::numeric_limits<T>::quiet_NaN();
@@ -164,12 +167,37 @@ template <typename T> struct mc_k
     }
 };
 
-// relative-error class of the variance-weighted combination of the results so far, w.r.t. the target
+// relative-error class of the variance-weighted combination of the results so far, w.r.t. the target - computed here from the
+// documented formula (E = S^2 sum E_i / S_i^2, S^-2 = sum S_i^-2 over the results with non-zero calls), not with hep::accumulate.
+// "edge": within the rounding of the library's (value, error) <-> (sum, sum of squares) conversion of the target, or degenerate
+// (a vanishing or non-finite variance somewhere): either decision is accepted.  "nan": no non-zero call at all (0 / 0).
 template <typename T, typename C> static char const* rel_class(C const& c, T target)
 {
-    auto r = hep::accumulate<hep::weighted_with_variance>(c.results().begin(), c.results().end());
-    T rel = r.error() / std::fabs(r.value());
-    if (std::isnan(rel)) return "nan";
+    T est = T(), inv = T();
+    std::size_t nz = 0, calls = 0;
+    bool degenerate = false;
+    for (auto const& r : c.results())
+    {
+        calls += r.calls();
+        nz += r.non_zero_calls();
+        if (r.non_zero_calls() != 0)
+        {
+            T v = r.variance();
+            if (!(v > T()) || !std::isfinite(v) || !std::isfinite(r.value())) degenerate = true;
+            T t = T(1) / v;
+            inv += t;
+            est += t * r.value();
+        }
+    }
+    if (nz == 0) return "nan";
+    if (degenerate || !(inv > T()) || !std::isfinite(inv) || !std::isfinite(est)) return "edge";
+    T var = T(1) / inv;
+    est *= var;
+    T rel = std::sqrt(var) / std::fabs(est);
+    if (!std::isfinite(rel) || !(rel > T())) return "edge";
+    // conditioning of error^2 recovered from N E^2 + N (N - 1) S^2
+    T kappa = T(1) + T(1) / (T(calls > 1 ? calls - 1 : 1) * rel * rel);
+    if (std::fabs(rel - target) <= T(64) * std::numeric_limits<T>::epsilon() * kappa * std::fmax(rel, target)) return "edge";
     return rel <= target ? "le" : "gt";
 }
 
@@ -199,6 +227,7 @@ template <typename T, typename C> struct observed_builtin
     {
         char const* cls = rel_class<T>(c, target);
         bool ret = inner(c);
+        ++iter_no;
         ev("Callback").i("rank", rank).i("n", (long long) c.results().size()).i("ret", ret ? 1 : 0).s("cls", cls).emit();
         return ret;
     }
@@ -211,6 +240,7 @@ template <typename T, typename C> struct observed_mpi_builtin
     {
         char const* cls = rel_class<T>(c, target);
         bool ret = inner(comm, c);
+        ++iter_no;
         ev("Callback").i("rank", vt_this_rank()).i("n", (long long) c.results().size()).i("ret", ret ? 1 : 0).s("cls", cls).emit();
         return ret;
     }
@@ -240,6 +270,7 @@ static void c12_run(rng& g, int shp, int variant, int world, bool builtin, doubl
     if (world == 0)
     {
         clog_.on = true; clog_.rank = 0;
+        iter_no = 0;
         C r = start;
         int count = 0;
         if (builtin) r = K::run(shp, variant, start, plan, observed_builtin<T, C>{hep::callback<C>(m, file, T(target)), T(target), 0});
@@ -251,6 +282,7 @@ static void c12_run(rng& g, int shp, int variant, int world, bool builtin, doubl
     {
         vt_mpi_run(world, (unsigned long long) run_id * 7919ULL, [&](MPI_Comm comm, int rank) {
             clog_.on = true; clog_.rank = rank;
+            iter_no = 0;
             int count = 0;
             C r = start;
             if (builtin) r = K::mpi_run(comm, shp, variant, start, plan, observed_mpi_builtin<T, C>{hep::mpi_callback<C>(m, file, T(target)), T(target)});
@@ -285,6 +317,13 @@ template <typename T> static void c12_family(rng& g, bool thorough)
             else if (pick == 1) c12_run<vegas_k<T>, T>(g, shp, 0, world, true, targets[t], 0, g.below(3) == 0, mode);
             else c12_run<mc_k<T>, T>(g, shp, (int) g.below(8), world, true, targets[t], 0, false, mode);
         }
+    // an iteration without any non-zero value between informative ones carries no weight: with 200 calls per iteration the relative
+    // error is about 0.05, 0.05, 0.035 after the first three callbacks - the target 0.04 is reached at the third
+    for (int world = 0; world != 3; ++world)
+    {
+        c12_run<plain_k<T>, T>(g, s_gap, 0, world == 1 ? 0 : world, true, 0.04, 0, false, (int) g.below(4));
+        if (world != 1) c12_run<mc_k<T>, T>(g, s_gap, 1, world, true, 0.04, 0, false, 0);
+    }
     // built-in callback under MPI (non-root ranks are silenced but must take the same decisions)
     for (int shp = 0; shp != s_count; ++shp)
     {
@@ -326,10 +365,11 @@ template <typename C> struct recording_mpi_cb
 };
 
 template <typename K, typename T>
-static void c20_run(rng& g, int shp, int variant, int world, double target)
+static void c20_run(rng& g, int shp, int variant, int world, double target, bool sparse = false)
 {
     typedef typename K::chk C;
     std::vector<std::size_t> plan{60, 80, 60, 70};
+    if (sparse) plan = std::vector<std::size_t>{60, 0, 1, 70}; // an iteration without calls and one with a single call: reported like any other
     int id = run_id++;
     for (int mode = 0; mode != 4; ++mode)
     {
@@ -405,6 +445,10 @@ template <typename T> static void c20_family(rng& g, bool thorough)
         c20_run<plain_k<T>, T>(g, shp, 0, 0, shp == s_ordinary ? 0.05 : 0.0);
         c20_run<vegas_k<T>, T>(g, shp, 0, shp % 2 ? 2 : 0, shp == s_negative ? 0.05 : 0.0);
     }
+    c20_run<plain_k<T>, T>(g, s_ordinary, 0, 0, 0.0, true);
+    c20_run<vegas_k<T>, T>(g, s_ordinary, 0, 2, 0.0, true);
+    c20_run<mc_k<T>, T>(g, s_ordinary, 2, 0, 0.0, true);
+    c20_run<plain_k<T>, T>(g, s_zero, 0, 3, 0.0, true);
     // multi channel: every (channels, pattern) variant, some with non-finite / zero integrands, serial and MPI
     for (int variant = 0; variant != 40; ++variant)
     {
